@@ -1,4 +1,6 @@
-import SFV.Proofs.Register
+import SFV.Proofs.RegisterFock
+import SFV.Proofs.RegisterBos
+import SFV.Proofs.RegisterModes
 
 /-!
 # C08 — register and simulator agree on which modes exist, for every history
@@ -10,17 +12,14 @@ entry per index ever created, `none` once deleted, otherwise the datum the mode 
 (`live`, `created`, `state` are derived).  Every theorem quantifies over all sizes, selections and
 histories.
 
-Full statement aimed at (kept visible; proved in the parts below, see `notes/C08.md` for what is missing):
-
-  `theorem agree (hist : List Ev) : Sim (runHist o s₀ hist) (aRunHist r₀ hist)` for `o ∈ {fockOps, gaussOps,
-   bosOps}` — i.e. after any history the program register, `get_modes()` and `live` coincide, rejected events
-   are exactly those the abstract rows reject, and `state(modes=None) = Rows.state`.
-
-Proved: the program side for all histories (`index_stable`, `reject_dead`, `reject_keeps_state`), the `ModeMap`
-invariant for all call histories (`modemap_inv`), the back-end side for every command sequence on the
-phase-space simulators (`agree_gaussian`, `state_exact_gaussian`, `reject_dead_*`), the Fock labelling under the
-axis-count hypothesis (`state_labels_fock_partial`), the hand-over rule (`can_follow_*`).  The known finding
-(bosonic re-initialisation per segment) is `bosonic_segment_counterexample`.
+Main theorem (`agree`, `agree_after_run`): for every history over `new | del | use | meas | endProg | reset`, on every
+back end that refines the rows (`Refines`; instances `fockRefines`, `gaussRefines`), the concrete system (program under
+construction with its deferred commands + engine + simulator) simulates the abstract, immediate semantics `aStep`:
+an event is accepted iff the abstract rows accept it, a rejected event changes nothing, running a segment never
+raises, and after it `Program.register = get_modes() = live` and `state(modes=None) = Rows.state` (live indices
+ascending, each with its own data).  The bosonic back end satisfies this for the first non-empty segment of an
+engine life only (`agree_bosonic_first_segment`); beyond that it is false (`bosonic_segment_counterexample`, the known
+finding shared with C09).
 -/
 set_option linter.unusedSectionVars false
 namespace SFV.C08
@@ -127,13 +126,106 @@ theorem reject_dead_del (s : PS D) (hs : PSInv s) (ms : List Nat) (m : Nat) (hm 
     (hd : Rows.liveAt s.abs m = false) : ∃ e, s.delMode ms = .error e :=
   PS.delMode_rejects ms s hs ⟨m, hm, hd⟩
 
-/-- Fock `state(modes=None)`, **partial**: under the hypothesis that the number of tensor axes equals the number
-of non-`None` map entries (preserved by `begin/add_mode/del_mode`; not yet proved for `del_mode`) the state has
-one mode per axis, axis `j` labelled with the `j`-th live index.  Missing for the full `state_exact`: the
-axis-count invariant and `axes[j]` = data of that index (scatter lemma over `deleteLoop`/`filterIdxFrom`). -/
-theorem state_labels_fock_partial (s : Fock D) (h : s.axes.length = countSome s.mm.map) :
-    s.stateNone = .ok (s.getModes.zip s.axes) :=
-  Fock.stateNone_labels s h
+/-- **`_test_regrefs` decides exactly the abstract selection test**: it succeeds iff every item denotes an index, all
+those indices are active subsystems, and none is repeated; it returns their RegRefs in order -/
+theorem test_regrefs_exact (p : Prog) (hp : ProgInv p) (reg : List Ref) (out : List RegRef) :
+    p.testRegrefs reg = .ok out ↔
+      ∃ is, idxAll reg = some is ∧ out = is.map (fun i => (⟨i, true⟩ : RegRef)) ∧
+        (∀ i ∈ is, actAt p i = true) ∧ is.Nodup :=
+  testRegrefs_iff hp reg out
+
+/-- **one event**: whenever the system represents the rows `a` (`Sim`), an event is accepted by program + engine +
+back end iff the abstract rows accept it, and the successors correspond -/
+theorem simulation_step (o : BackendOps D B) (abs : B → Rows D) (Inv : B → Prop) (R : Refines o abs Inv)
+    (s : Sys B) (a : Rows D) (h : Sim o abs Inv s a) (ev : Ev) :
+    match aStep a ev with
+    | some a' => ∃ s', step o s ev = .ok s' ∧ Sim o abs Inv s' a'
+    | none => ∃ e, step o s ev = .error e :=
+  step_sim R h ev
+
+/-- **agreement, every history, every refining back end**: after any history on a new engine the system represents
+the rows obtained by applying the accepted events immediately; the program register is the live set; and whenever
+the program under construction is still empty after a run, `get_modes()` is the live set and `state(modes=None)` is
+the abstract state -/
+theorem agree (o : BackendOps D B) (abs : B → Rows D) (Inv : B → Prop) (R : Refines o abs Inv) (n : Nat)
+    (s : Sys B) (hist : List Ev) (hinit : Sys.init o n = .ok s) :
+    Sim o abs Inv (runHist o s hist) (aRunHist (List.replicate n (some DataSem.vac)) hist) ∧
+    (runHist o s hist).prog.register = Rows.live (aRunHist (List.replicate n (some (DataSem.vac : D))) hist) ∧
+    ((runHist o s hist).prog.circuit = [] → (runHist o s hist).prev ≠ none →
+      o.getModes (runHist o s hist).be = Rows.live (aRunHist (List.replicate n (some (DataSem.vac : D))) hist) ∧
+      o.stateNone (runHist o s hist).be = .ok (Rows.state 0 (aRunHist (List.replicate n (some (DataSem.vac : D))) hist))) := by
+  have h := runHist_sim R hist s _ (init_sim R.begin_inv R.begin_abs hinit).1
+  exact ⟨h, sim_register h, fun hc hp => (sim_boundary R h hc hp).2⟩
+
+/-- **running never raises, and then everything agrees**: after any history, `eng.run` of the program under
+construction succeeds, and afterwards `Program.register = get_modes() = live` and the returned state has exactly the
+live modes in ascending index order, each labelled with its own index and carrying its own data -/
+theorem agree_after_run (o : BackendOps D B) (abs : B → Rows D) (Inv : B → Prop) (R : Refines o abs Inv) (n : Nat)
+    (s : Sys B) (hist : List Ev) (hinit : Sys.init o n = .ok s) :
+    ∃ t, step o (runHist o s hist) .endProg = .ok t ∧
+      t.prog.register = Rows.live (aRunHist (List.replicate n (some (DataSem.vac : D))) hist) ∧
+      o.getModes t.be = Rows.live (aRunHist (List.replicate n (some (DataSem.vac : D))) hist) ∧
+      o.stateNone t.be = .ok (Rows.state 0 (aRunHist (List.replicate n (some (DataSem.vac : D))) hist)) ∧
+      (Rows.state 0 (aRunHist (List.replicate n (some (DataSem.vac : D))) hist)).map (·.1)
+        = Rows.live (aRunHist (List.replicate n (some (DataSem.vac : D))) hist) := by
+  have h := runHist_sim R hist s _ (init_sim R.begin_inv R.begin_abs hinit).1
+  obtain ⟨t, h1, h2, h3, h4⟩ := step_end R h
+  have hb := sim_boundary R h2 h3 h4
+  exact ⟨t, h1, sim_register h2, hb.2.1, hb.2.2, Rows.state_labels _ 0⟩
+
+/-- **`All(gate) | reg`** is: test the whole selection (so a bad item rejects everything before anything is appended),
+then one single-mode `gate | r` per item — each of which is an event of the history alphabet covered by `simulation_step` -/
+theorem all_gate_is_uses (p : Prog) (reg : List Ref) (k : Int) :
+    p.allOp reg k = match p.testRegrefs reg with
+      | .error e => .error e
+      | .ok _ => reg.foldlM (fun q r => q.useOp [r] k []) p :=
+  allOp_eq p reg k
+
+/-- the Fock back end (ModeMap + tensor axes) and the Gaussian back end are such back ends -/
+theorem fock_refines : Refines (fockOps D) (Fock.abs (D := D)) (FockInv (D := D)) := fockRefines
+theorem gaussian_refines : Refines (gaussOps D) (PS.abs (D := D)) (PSInv (D := D)) := gaussRefines
+
+/-- **Fock `state(modes=None)`** (full): one mode per tensor axis, axis `j` labelled with the `j`-th live index and
+carrying the data of that index; `get_modes()` is the live set; both invariants (numbering, axis count) hold -/
+theorem state_exact_fock (s : Fock D) (hs : FockInv s) :
+    s.stateNone = .ok (Rows.state 0 s.abs) ∧ s.getModes = Rows.live s.abs ∧
+    (Rows.state 0 s.abs).map (·.1) = Rows.live s.abs :=
+  ⟨Fock.stateNone_exact s hs, Fock.getModes_live s hs, Rows.state_labels s.abs 0⟩
+
+/-- every command sequence the rows accept runs on the Fock back end, keeps `FockInv` and ends in the abstract result -/
+theorem agree_fock_from (cs : List Cmd) (s : Fock D) (hs : FockInv s) (r' : Rows D) (h : Rows.run cs s.abs = some r') :
+    ∃ s' : Fock D, Fock.runCircuit cs s = .ok s' ∧ FockInv s' ∧ s'.abs = r' :=
+  Fock.runCircuit_refines cs s hs r' h
+
+/-- **explicit `state(modes=[…])`** on the Fock and on the (repaired) Gaussian back end: the result is the list of the
+requested positions of the full state, in the requested order — so every returned mode is a live mode, labelled with its
+own index and carrying its own data -/
+theorem state_modes_exact_fock (s : Fock D) (hs : FockInv s) (modes : List Nat) (out : List (Nat × D))
+    (h : s.stateModes modes = .ok out) : getAll (Rows.state 0 s.abs) modes = .ok out :=
+  Fock.stateModes_exact s hs modes out h
+
+theorem state_modes_exact_gaussian (s : PS D) (hs : PSInv s) (modes : List Nat) (out : List (Nat × D))
+    (h : s.stateModesG modes = .ok out) : getAll (Rows.state 0 s.abs) modes = .ok out :=
+  PS.stateModesG_exact s hs modes out h
+
+/-- dead or unknown indices are rejected by the Fock back end (`_remap_modes`) -/
+theorem reject_dead_gate_fock (s : Fock D) (hs : FockInv s) (k : Int) (ms : List Nat) (m : Nat) (hm : m ∈ ms)
+    (hd : Rows.liveAt s.abs m = false) : ∃ e, s.gate k ms = .error e :=
+  Fock.gate_rejects s hs k ms ⟨m, hm, hd⟩
+
+theorem reject_dead_measure_fock (s : Fock D) (hs : FockInv s) (ms : List Nat) (m : Nat) (hm : m ∈ ms)
+    (hd : Rows.liveAt s.abs m = false) : ∃ e, s.measure ms = .error e :=
+  Fock.measure_rejects s hs ms ⟨m, hm, hd⟩
+
+theorem reject_dead_del_fock (s : Fock D) (hs : FockInv s) (ms : List Nat) (m : Nat) (hm : m ∈ ms)
+    (hd : Rows.liveAt s.abs m = false) : ∃ e, s.delMode ms = .error e :=
+  Fock.delMode_rejects s hs ms ⟨m, hm, hd⟩
+
+/-- **a first program whose register starts with deleted subsystems is refused** (no previous segment: the back end
+would get `init_num_subsystems` contiguous modes) -/
+theorem first_program_with_holes_refused (o : BackendOps D B) (s : Sys B) (hp : s.prev = none)
+    (hh : s.prog.initRegRefs.all (·.active) = false) : step o s .endProg = .error .runtime := by
+  simp [step, engineRun, engineStart, hp, hh]
 
 /-- **hand-over between segments**: `Program(prev)` can always follow `prev` … -/
 theorem can_follow_child (p : Prog) : p.child.canFollow p.regRefs = true := canFollow_child p
@@ -158,28 +250,22 @@ theorem bosonic_segment_counterexample :
      | .error _ => ([], [], .ok []))
     = ([0, 2], [0, 1], .ok [(0, 1), (1, 0)]) := by decide +kernel
 
-/-- bosonic, **partial** (first non-empty segment on a fresh or reset engine): `run_prog` on a circuit without
-`New` behaves like the Gaussian main loop on a new simulator -/
-theorem agree_bosonic_first_segment_partial (cs : List Cmd) (n : Nat) (s : PS D) (hne : cs ≠ [])
-    (hnew : ∀ c ∈ cs, ∀ k, c.op ≠ .newModes k) :
-    PS.bosRun n cs s = PS.bosLoop cs (PS.begin n) := by
-  unfold PS.bosRun
-  have : cs.isEmpty = false := by cases cs <;> simp_all
-  simp only [this, Bool.false_eq_true, if_false]
-  congr 1
-  unfold PS.bosInit
-  generalize (PS.begin n : PS D) = b
-  clear this hne
-  induction cs generalizing b with
-  | nil => rfl
-  | cons c cs ih =>
-    simp only [List.foldl_cons]
-    have hc := hnew c (by simp)
-    cases hop : c.op with
-    | newModes k => exact absurd hop (hc k)
-    | delete => simp only []; exact ih (fun c' hc' => hnew c' (by simp [hc'])) b
-    | gate k => simp only []; exact ih (fun c' hc' => hnew c' (by simp [hc'])) b
-    | measure => simp only []; exact ih (fun c' hc' => hnew c' (by simp [hc'])) b
+/-- bosonic, what remains true — **the whole first segment of an engine life**: after any program-building events on a
+new engine, `eng.run` succeeds (the `New`s are hoisted by `init_circuit`, anything the simulator held is discarded) and
+register, `get_modes()`, live set and returned state agree -/
+theorem agree_bosonic_first_segment (n : Nat) (s : Sys (PS D)) (es : List Ev) (hinit : Sys.init (bosOps D) n = .ok s)
+    (hes : es.all Ev.isProg = true) :
+    ∃ s', step (bosOps D) (runHist (bosOps D) s es) .endProg = .ok s' ∧
+      s'.prog.register = Rows.live (aRunHist (List.replicate n (some (DataSem.vac : D))) es) ∧
+      PS.getModes s'.be = Rows.live (aRunHist (List.replicate n (some (DataSem.vac : D))) es) ∧
+      PS.stateNone s'.be = .ok (Rows.state 0 (aRunHist (List.replicate n (some (DataSem.vac : D))) es)) :=
+  bos_first_segment_hist n s es hinit hes
+
+/-- … at the level of `run_prog`: any accepted command sequence (with `New`s anywhere), whatever the simulator held -/
+theorem bosonic_run_prog_first_segment (n : Nat) (cs : List Cmd) (b : PS D) (r' : Rows D) (hne : cs ≠ [])
+    (hr : Rows.run cs (List.replicate n (some (DataSem.vac : D))) = some r') :
+    ∃ s', PS.bosRun n cs b = .ok s' ∧ PSInv s' ∧ s'.abs = r' :=
+  bosRun_first_segment n cs b r' hne hr
 
 /-! ### non-vacuity -/
 
@@ -224,5 +310,43 @@ example : ∃ s : PS Int, (PS.begin 3 : PS Int).delMode [1] = .ok s ∧ Rows.liv
 /-- `can_follow_fresh`: after a deletion no fresh program can follow -/
 example : ∃ p q : Prog, (Prog.fresh 2 >>= fun p => p.delOp [.own 0]) = .ok p ∧ Prog.fresh 2 = .ok q ∧
     q.canFollow p.regRefs = false ∧ p.child.canFollow p.regRefs = true := ⟨_, _, rfl, rfl, by decide, by decide⟩
+
+/-- `agree` / `agree_after_run`: the abstract run of `h1` (non-trivial: New first, New(2), two-mode Del, a rejected
+re-use, two segments) — what both back-end examples above computed concretely -/
+example : aRunHist (List.replicate 2 (some (0 : Int))) h1 = [none, none, none, some 0, some 0] ∧
+    Rows.live (aRunHist (List.replicate 2 (some (0 : Int))) h1) = [3, 4] ∧
+    (aStep ([some 0, none] : Rows Int) (.use [.int 1] 1 [])).isSome = false := by decide
+
+/-- `test_regrefs_exact`: accepted and rejected selections on a register with a hole -/
+example : ∃ p : Prog, (Prog.fresh 3 >>= fun p => p.delOp [.own 1]) = .ok p ∧ actAt p 0 = true ∧ actAt p 1 = false ∧
+    idxAll [Ref.own 2, .int 0] = some [2, 0] ∧ p.testRegrefs [.own 2, .int 0] = .ok [⟨2, true⟩, ⟨0, true⟩] ∧
+    idxAll [Ref.foreign 0 true] = none := ⟨_, rfl, by decide, by decide, by decide, by decide, by decide⟩
+
+/-- `first_program_with_holes_refused`: `Program(parent)` with a deleted subsystem on a reset engine -/
+example : ∃ p : Prog, (Prog.fresh 3 >>= fun p => p.delOp [.own 1]) = .ok p ∧
+    (match step (gaussOps Int) ⟨p.lock.child, none, PS.begin 0⟩ .endProg with
+      | .error e => some e
+      | .ok _ => none) = some .runtime := ⟨_, rfl, by decide⟩
+
+/-- `agree_bosonic_first_segment`: New(2) as first command, a gate on a new mode, Del of an old one — one segment -/
+example : (match Sys.init (bosOps Int) 1 with
+    | .ok s => match step (bosOps Int) (runHist (bosOps Int) s [.new 2, .use [.own 2] 3 [], .del [.own 0]]) .endProg with
+      | .ok t => (t.prog.register, PS.getModes t.be, PS.stateNone t.be)
+      | .error _ => ([], [], .ok [])
+    | .error _ => ([], [], .ok []))
+    = ([1, 2], [1, 2], .ok [(1, 0), (2, 3)]) := by decide +kernel
+
+/-- `state_modes_exact_*`: after `Del q[1]` of 3, positions `[1, 0]` are the modes `q[2], q[0]` with their own data -/
+example : ∃ s : PS Int, PS.runCircuit [⟨.gate 1, [0]⟩, ⟨.gate 3, [2]⟩, ⟨.delete, [1]⟩] (PS.begin 3) = .ok s ∧
+    s.stateModesG [1, 0] = .ok [(2, 3), (0, 1)] ∧ Rows.state 0 s.abs = [(0, 1), (2, 3)] := ⟨_, rfl, by decide, by decide⟩
+
+example : ∃ s : Fock Int, Fock.runCircuit [⟨.gate 1, [0]⟩, ⟨.gate 3, [2]⟩, ⟨.delete, [1]⟩] (Fock.begin 3) = .ok s ∧
+    s.stateModes [1, 0] = .ok [(2, 3), (0, 1)] ∧ Rows.state 0 s.abs = [(0, 1), (2, 3)] := ⟨_, rfl, by decide, by decide⟩
+
+/-- `all_gate_is_uses`: accepted on two modes (two commands appended), rejected as a whole when one item is deleted -/
+example : ∃ p : Prog, (Prog.fresh 3 >>= fun p => p.delOp [.own 1]) = .ok p ∧
+    (match p.allOp [.own 2, .int 0] 1 with | .ok q => q.circuit.length | .error _ => 0) = p.circuit.length + 2 ∧
+    (match p.allOp [.own 2, .int 1] 1 with | .ok _ => none | .error e => some e) = some .regRef :=
+  ⟨_, rfl, by decide, by decide⟩
 
 end SFV.C08
